@@ -82,3 +82,21 @@ func H_C02_getError() {
 	}
 	verifReach("C02.getError.end")
 }
+
+// the error of a Send whose context is done wraps the context's error (ctx.Err(), whatever cause the canceller recorded)
+func H_C02_process_cancelled() {
+	g := &graph{successThreshold: nondetInt(), successThresholdSinks: nondetInt()}
+	f := &pNode{typ: NodeTypeFilter, outcome: symLen(0, 3)}
+	s := &pNode{pipe: 0, pos: 1, typ: NodeTypeSink, outcome: symLen(0, 3)}
+	root := &linkedNode{node: f, nodeID: "f", next: []*linkedNode{{node: s, nodeID: "s"}}}
+	g.roots.Store("p", &registeredPipeline{rootNode: root})
+	ctx := verifCancelledCtx(nondetBool())
+	st, err := g.process(ctx, &Event{Type: "t", Formatted: map[string][]byte{}})
+	verifAssert((err != nil) == verifOr(len(st.complete) < g.successThreshold, len(st.completeSinks) < g.successThresholdSinks), "C02.cancelled.error-iff-thresholds-unmet")
+	if err != nil {
+		verifAssert(errors.Is(err, ctx.Err()), "C02.cancelled.error-wraps-ctx-err")
+		verifReach("C02.cancelled.error")
+	}
+	verifAssert(len(st.complete)+len(st.Warnings) <= 1, "C02.cancelled.never-invented")
+	verifReach("C02.cancelled.end")
+}
